@@ -537,7 +537,7 @@ def replay_files(f):
 def main(tier, seed):
     setup()
     workers = max(2, min(12, common.NPROC - 2))
-    n_ex = 120 if tier == "quick" else 1200
+    n_ex = 200 if tier == "quick" else 1500
     return c17run.run(PROP, "exploration", RULE, tier, seed, make_strategy, case, confirm, replay_files, workers, n_ex,
                       min_cases=workers * n_ex // 3,
                       post=lambda ev: ev.assumptions.extend([
